@@ -127,6 +127,20 @@ chk("C11",
     "machine-checked proof in Coq (harmonic-mean bounds by induction over the history) + translator/exact-rational correspondence",
     "DESIGN.md section 6, C11")
 
+chk("C09",
+    "Coq theorems over an abstract generator and seeding traces: a run that first seeds with the user's value is "
+    "independent of the earlier global state (equal random_state => equal stream); any reseed makes everything after "
+    "it independent of the seed in force before (the formal content of 'replays the same innovations'); without "
+    "seeding calls the stream position is the earlier state advanced by the draw count and distinct seeds stay "
+    "distinct; the seeding call sites extracted from the whole package contain no constant reseed on a run/fit path, "
+    "all are None-guarded, and fresh initialisation seeds with the configuration's random_state. Tie: Gen.Seeding "
+    "(static extraction over tempest/*.py) + Link; np.random.seed wrapped during real runs/fits and the recorded trace "
+    "compared with the predicted one; behavioural replays (same seed twice, seed+1, seed-dependence after fit/run).",
+    "Trusted: Coq kernel; python extractor/harness; generator abstracted (additive, injective advance); statistical "
+    "independence carried only as absence of shared innovations; checkpoint load re-seeds with the stored user value.",
+    "machine-checked proof in Coq (trace semantics over an abstract generator) + static call-site extraction/trace correspondence",
+    "DESIGN.md section 6, C09")
+
 for pid in [f"C{i:02d}" for i in range(1, 21)]:
     if pid not in CHECKS:
         NA[pid] = "check not built yet in this session (planned in DESIGN.md section 6); not claimed"
